@@ -288,7 +288,7 @@ class RefDeser:
                 # alternative when all alternatives have distinct JSON classes
                 classes = [self.json_class(a) for a in alts]
                 if None not in classes and len(set(classes)) == len(classes) and "float" in classes and "int" not in classes:
-                    errs.append((loc, "type"))
+                    errs.extend((loc, "type") for _ in classes)  # one message per expected class
                     return None
             all_errs = []
             images = []
